@@ -196,9 +196,10 @@ def cases(tier):
                "payload": {"mode": "pair", "k1": k1, "k2": k2, "form": "ref+inline", "req": [False, False], "default": "none", "pname": "itemCount",
                            "collide": "item_count"}}
     for shape in ("chain3", "diamond", "disjoint3", "selfref-chain", "single-ref+own-properties", "single-ref+required-only", "single-ref+closed", "single-ref+member-requires-inherited",
-                  "empty-parent:type-only", "empty-parent:addl-only", "empty-parent:empty-properties", "empty-parent:middle-of-chain"):
+                  "empty-parent:type-only", "empty-parent:addl-only", "empty-parent:empty-properties", "empty-parent:middle-of-chain",
+                  "failing-sibling:type-conflict", "failing-sibling:non-object-member", "failing-sibling:dangling"):
         names = {"chain3": ["Base", "Mid", "M"], "diamond": ["Base", "Left", "Right", "M"], "disjoint3": ["P1", "P2", "P3", "M"],
-                 "selfref-chain": ["Base", "Mid", "M"]}.get(shape, ["Base", "M", "User"])
+                 "selfref-chain": ["Base", "Mid", "M"]}.get(shape, ["Base", "Bad", "M", "User"] if shape.startswith("failing-sibling") else ["Base", "M", "User"])
         for order in itertools.permutations(names):
             if tier == "quick" and shape == "diamond" and order[0] not in ("M", "Base"):
                 continue
@@ -375,6 +376,17 @@ def _shape(p):
                  "M": {"allOf": [ref("Left"), ref("Right")]}}
         expect = {"id": ("int", True), "v": ("int", False), "l": ("str", False), "r": ("str", True)}
         inst = {"id": 1, "v": 3, "l": "a", "r": "b"}
+    elif shape.startswith("failing-sibling:"):
+        # two compositions of one parent; the OTHER one cannot be composed (conflict / clash / dangling member): M is unaffected, whatever the order
+        base = {"type": "object", "required": ["id"], "properties": {"id": {"type": "integer"}, "label": {"type": "string"}}}
+        bad_member = {"type-conflict": {"type": "object", "properties": {"id": {"type": "string", "format": "date"}}},
+                      "non-object-member": {"allOf": [{"type": "string", "enum": ["x"]}]},
+                      "dangling": {"type": "object", "properties": {"gone": ref("Nope")}}}[shape.split(":")[1]]
+        comps = {"Base": base, "Bad": {"allOf": [ref("Base"), bad_member]},
+                 "M": {"allOf": [ref("Base"), {"type": "object", "required": ["own"], "properties": {"own": {"type": "boolean"}}}]},
+                 "User": {"type": "object", "properties": {"m": ref("M")}}}
+        expect = {"id": ("int", True), "label": ("str", False), "own": ("bool", True)}
+        inst = {"id": 1, "label": "l", "own": True}
     elif shape.startswith("empty-parent:"):
         # a referenced member that declares NO properties of its own is still a processed member
         empty = {"type-only": {"type": "object"}, "addl-only": {"type": "object", "additionalProperties": {"type": "string"}},
